@@ -4,6 +4,9 @@ Tie shared by C01, C07, C18: facts regenerated from pkg/ed25519 and pkg/vrf.
 import Iota.Gen.Ed
 import Iota.Tie.Expect
 import Iota.Model.Vrf
+import Iota.Tie.VrfCode
+import Iota.Proofs.Vectors.Ed
+import Iota.Proofs.Vectors.Hash
 
 namespace Iota.Tie.Ed
 open Iota
@@ -19,6 +22,8 @@ theorem vrf_constants :
     Gen.Ed.vrfSeparators = [[1], [0], [2], [0], [3], [0]] ∧
     Gen.Ed.vrfNonCanonicalSignBytes = Vrf.nonCanonicalSignBytes.map (·.map fun b => (b.toNat : Int)) := by decide
 
+/-- `isCanonicalY` is not pinned by text any more: it is translated as code and tied to the model for all inputs in
+`Iota/Tie/VrfCode.lean`. -/
 theorem src :
     Gen.Ed.src_ed25519_PrivateKey_Public = Expect.Ed_src_ed25519_PrivateKey_Public ∧
     Gen.Ed.src_ed25519_PrivateKey_Seed = Expect.Ed_src_ed25519_PrivateKey_Seed ∧
@@ -39,9 +44,8 @@ theorem src :
     Gen.Ed.src_vrf_Proof_Bytes = Expect.Ed_src_vrf_Proof_Bytes ∧
     Gen.Ed.src_vrf_Proof_SetBytes = Expect.Ed_src_vrf_Proof_SetBytes ∧
     Gen.Ed.src_vrf_Proof_UnmarshalBinary = Expect.Ed_src_vrf_Proof_UnmarshalBinary ∧
-    Gen.Ed.src_vrf_newPointFromCanonicalBytes = Expect.Ed_src_vrf_newPointFromCanonicalBytes ∧
-    Gen.Ed.src_vrf_isCanonicalY = Expect.Ed_src_vrf_isCanonicalY :=
-  ⟨rfl, rfl, rfl, rfl, rfl, rfl, rfl, rfl, rfl, rfl, rfl, rfl, rfl, rfl, rfl, rfl, rfl, rfl, rfl, rfl, rfl⟩
+    Gen.Ed.src_vrf_newPointFromCanonicalBytes = Expect.Ed_src_vrf_newPointFromCanonicalBytes :=
+  ⟨rfl, rfl, rfl, rfl, rfl, rfl, rfl, rfl, rfl, rfl, rfl, rfl, rfl, rfl, rfl, rfl, rfl, rfl, rfl, rfl⟩
 
 /-- everything else the package declares (imports, constants, types, variables, build constraints and the functions not
 pinned one by one) is unchanged too: no declaration of the modelled packages can change without a tie theorem failing. -/
@@ -49,5 +53,14 @@ theorem rest :
     Gen.Ed.rest_ed25519 = Expect.Ed_rest_ed25519 ∧
     Gen.Ed.rest_vrf = Expect.Ed_rest_vrf :=
   ⟨rfl, rfl⟩
+
+/-! ### vrf `isCanonicalY` translated AS CODE (early returns inside the loop, checked indexing) = the model on every
+input of at least 32 bytes; shorter inputs panic in Go (`none`) — the callers pass exactly 32 bytes. -/
+open Iota.Tie.Bech32Code (bv) in
+theorem code_isCanonicalY (x : List UInt8) (hx : 32 ≤ x.length) :
+    Gen.Ed.vrf.isCanonicalY (bv x) = some (Vrf.isCanonicalY x) := Iota.Tie.VrfCode.isCanonicalY_eq x hx
+open Iota.Tie.Bech32Code (bv) in
+theorem code_isCanonicalY_short (x : List UInt8) (hx : x.length < 32) :
+    Gen.Ed.vrf.isCanonicalY (bv x) = none := Iota.Tie.VrfCode.isCanonicalY_panics x hx
 
 end Iota.Tie.Ed
